@@ -272,6 +272,8 @@ class Check:
         return True
 
     def write_evidence(self, extra=None):
+        if getattr(self, "is_replay", False):
+            return
         cov = dict(self.cov)
         cov.update(self.notes)
         if extra:
